@@ -13,6 +13,12 @@ from vt.cond import Infeasible
 from vt.scenario import sexp, slog
 
 
+def _is_zero(g):
+    if isinstance(g, nf.RF):
+        return g.n.is_zero()
+    return g == 0
+
+
 def _lt(a, b):
     return bool(a < b)
 
@@ -60,6 +66,8 @@ class Exponential(Demography):
         self.theta, self.g = theta, g
 
     def integral(self, a, b):
+        if _is_zero(self.g):
+            return (b - a) / self.theta          # N(t) = theta exp(-0 t) = theta
         return (sexp(self.g * b) - sexp(self.g * a)) / (self.theta * self.g)
 
     def log_n(self, t):
@@ -172,6 +180,8 @@ class GridExponential(Demography):
         g = self.growths[self.j]
         g0 = self.grid[self.j]
         n0 = sexp(self.log_n_start)
+        if _is_zero(g):
+            return (b - a) / n0                  # the piece is flat
         return (sexp(g * (b - g0)) - sexp(g * (a - g0))) / (n0 * g)
 
     def on_event(self, kind, time):
